@@ -6,7 +6,8 @@ from collections import deque
 from ..model import (walk, dotted, call_name, kwarg, unparse, short, UNKNOWN,
                      root_name, AnalysisError, calls_in, stores_in_target)
 from ..cfg import cfg_of
-from ..flow import Deps, guards, must_pass, must_pass_feasible, loop_slice
+from ..flow import (Deps, guards, must_pass, must_pass_feasible, loop_slice,
+                    reaching_defs)
 from .. import idioms as I
 from ..outcomes import check_one_outcome, Effects
 from .c01 import sched_classes, consts, grant_paths, BASE, _ancestors
@@ -155,24 +156,8 @@ def r04_1(prog, rep, rid='R04.1'):
               'with `%s`, not with self._try_allocation: tasks are started '
               'without a grant' % short(chk, 40), loc=f2.loc(bis))
     # pool task -> to_test xor to_wait
-    sp = _loops_over(g2, lambda a: isinstance(a.target, ast.Name) and any(
-        isinstance(c.func, ast.Attribute) and c.func.attr == 'append' and
-        isinstance(c.func.value, ast.Name) and c.func.value.id == src.id
-        and c.args and isinstance(c.args[0], ast.Name) and
-        c.args[0].id == a.target.id for c in calls_in(a)))
-    if len(sp) != 1:
-        raise AnalysisError('UNRECOGNISED-IDIOM %s: loop sorting pool tasks '
-                            'into the bisect input not found' % f2.where)
-    check_one_outcome(rep, rid, f2, g2, sp[0].id, sp[0].ast.target.id,
-                      'wait pool triage',
-                      'a waiting task is neither tested nor kept (lost from '
-                      'the pool), or both (started and kept: started twice)')
-    keep = None
-    for c in calls_in(sp[0].ast):
-        if isinstance(c.func, ast.Attribute) and c.func.attr == 'append' and \
-                isinstance(c.func.value, ast.Name) and \
-                c.func.value.id != src.id:
-            keep = c.func.value.id
+    keeps = _triage(prog, rep, rid, f2, g2, bis, src.id)
+    keep = ' + '.join(keeps) if keeps else None
     smap2 = I.stmt_node_map(g2)
     bn = smap2[id(bis)]
     # started
@@ -212,12 +197,14 @@ def r04_1(prog, rep, rid='R04.1'):
               history='a waiting task that can never be scheduled disappears '
               'silently; the application waits forever')
     # new pool = unscheduled + kept
+    c2 = _Ctx(prog, f2)
     newp = [n for n in walk(f2.node) if isinstance(n, ast.Assign) and
-            unparse(n.targets[0]).startswith('self._waitpool[')]
+            isinstance(n.targets[0], ast.Subscript) and
+            c2.level(n.targets[0].value, smap2[id(n)]) == 0]
     okn = False
     for n in newp:
         names = _flows_into(g2, smap2, f2.node, n.value, smap2[id(n)])
-        if badl in names and (keep is None or keep in names) and \
+        if badl in names and all(k in names for k in keeps) and \
                 good not in names:
             cn = smap2[id(n)]
             if must_pass(g2, bn.id, _next_iter_or_exit(g2, bn), [cn.id]):
@@ -229,6 +216,267 @@ def r04_1(prog, rep, rid='R04.1'):
               % (badl, keep), loc=f2.loc(bis),
               history='tasks that did not fit are dropped from the pool, or '
               'started tasks stay in it and are started again')
+
+
+# ------------------------------------------------------------------------------
+# wait pool triage: every task of the pool of one priority goes into the input
+# of the bisect xor into a list of tasks which keep waiting
+#
+def _formula(e):
+    """boolean structure of a test over opaque atoms (spelled canonically:
+    `a != b` is not(`a == b`), `a <= b` is not(`a > b`) ...)"""
+    if isinstance(e, ast.BoolOp):
+        return ('and' if isinstance(e.op, ast.And) else 'or',
+                [_formula(v) for v in e.values])
+    if isinstance(e, ast.UnaryOp) and isinstance(e.op, ast.Not):
+        return ('not', _formula(e.operand))
+    if _is_bool_call(e):
+        return _formula(e.args[0])
+    if isinstance(e, ast.Constant):
+        return ('const', bool(e.value))
+    if isinstance(e, ast.Compare) and len(e.ops) == 1:
+        neg = {ast.NotEq: '==', ast.NotIn: 'in', ast.IsNot: 'is',
+               ast.LtE: '>', ast.Lt: '>='}
+        pos = {ast.Eq: '==', ast.In: 'in', ast.Is: 'is', ast.Gt: '>',
+               ast.GtE: '>='}
+        l, r = unparse(e.left), unparse(e.comparators[0])
+        for table, negated in ((pos, False), (neg, True)):
+            for k, sym in table.items():
+                if isinstance(e.ops[0], k):
+                    at = ('atom', '%s %s %s' % (l, sym, r))
+                    return ('not', at) if negated else at
+    return ('atom', unparse(e))
+
+
+def _atoms(fm, out):
+    if fm[0] == 'atom':
+        out.add(fm[1])
+    elif fm[0] == 'not':
+        _atoms(fm[1], out)
+    elif fm[0] in ('and', 'or'):
+        for x in fm[1]:
+            _atoms(x, out)
+    return out
+
+
+def _holds(fm, sigma):
+    if fm[0] == 'atom':
+        return sigma[fm[1]]
+    if fm[0] == 'const':
+        return fm[1]
+    if fm[0] == 'not':
+        return not _holds(fm[1], sigma)
+    if fm[0] == 'and':
+        return all(_holds(x, sigma) for x in fm[1])
+    return any(_holds(x, sigma) for x in fm[1])
+
+
+def _task_var(ctx, target, it, at, env=None):
+    """the name bound to a task of the pool of one priority by `for target in
+    it` (pool.values(), pool.items(): second name), and the spelling of that
+    pool; else None"""
+    names = stores_in_target(target)
+    for nm in names:
+        if ctx._elem_level(target, it, nm, at, env, 5) == 2:
+            pool = _unwrap_iter(it).func.value
+            return nm, ctx.canon(pool, at, env)
+    return None
+
+
+def _receives(stmt, var):
+    """names of the containers which receive the task `var` by the simple
+    statement `stmt` (X.append(var), X.add(var), X[k] = var)"""
+    out = []
+    if isinstance(stmt, ast.Expr) and isinstance(stmt.value, ast.Call):
+        c = stmt.value
+        if isinstance(c.func, ast.Attribute) and \
+                c.func.attr in ('append', 'add', 'appendleft') and \
+                isinstance(c.func.value, ast.Name) and len(c.args) == 1 and \
+                isinstance(c.args[0], ast.Name) and c.args[0].id == var:
+            out.append(c.func.value.id)
+    if isinstance(stmt, ast.Assign) and isinstance(stmt.value, ast.Name) and \
+            stmt.value.id == var:
+        for t in stmt.targets:
+            if isinstance(t, ast.Subscript) and isinstance(t.value, ast.Name):
+                out.append(t.value.id)
+    return out
+
+
+class _Filler:
+    """one place which sorts tasks of the pool into lists: a `for` loop over
+    the pool (kind 'loop') or a comprehension over it (kind 'comp')"""
+
+    def __init__(self, kind, pool, var, node, ast_, lists, cond=None):
+        self.kind, self.pool, self.var = kind, pool, var
+        self.node, self.ast, self.lists, self.cond = node, ast_, lists, cond
+
+
+def _sources_of(ctx, name, at, depth=4):
+    """[(cfg node, value)] the creations of the list `name` as it is at `at`,
+    through plain copies (`x = sorted(y)`, `x = y`)"""
+    out = []
+    for n, v in ctx.defs(name, at):
+        if v is None:
+            out.append((n, None))
+            continue
+        u = _unwrap_iter(v)
+        if isinstance(u, ast.Name) and depth > 0:
+            out += _sources_of(ctx, u.id, n, depth - 1)
+        else:
+            out.append((n, u))
+    return out
+
+
+def _triage(prog, rep, rid, f2, g2, bis, src):
+    """decides the triage obligation; returns the names of the lists (other
+    than the bisect input `src`) which receive tasks of the pool"""
+    ctx = _Ctx(prog, f2)
+    bn = ctx.smap[id(bis)]
+    fillers = []
+    # loops over the pool which put their task somewhere
+    for n in g2.nodes:
+        if n.kind != 'for':
+            continue
+        tv = _task_var(ctx, n.ast.target, n.ast.iter, n)
+        if tv is None:
+            continue
+        lists = set()
+        for m in g2.stmt_nodes():
+            if m.kind == 'stmt' and m.id in g2.loop_body[n.id]:
+                lists |= set(_receives(m.ast, tv[0]))
+        if lists:
+            fillers.append(_Filler('loop', tv[1], tv[0], n, n.ast, lists))
+    # comprehensions over the pool whose element is the task
+    comps = {}
+    for n in g2.stmt_nodes():
+        if n.kind != 'stmt' or not isinstance(n.ast, ast.Assign) or \
+                len(n.ast.targets) != 1 or \
+                not isinstance(n.ast.targets[0], ast.Name):
+            continue
+        v = _unwrap_iter(n.ast.value)
+        if not isinstance(v, (ast.ListComp, ast.SetComp, ast.GeneratorExp)) \
+                or len(v.generators) != 1:
+            continue
+        gen = v.generators[0]
+        tv = _task_var(ctx, gen.target, gen.iter, n)
+        if tv is None or not isinstance(v.elt, ast.Name) or \
+                v.elt.id != tv[0]:
+            continue
+        cond = ('and', [_formula(t) for t in gen.ifs])
+        fl = _Filler('comp', tv[1], tv[0], n, v, {n.ast.targets[0].id}, cond)
+        fillers.append(fl)
+        comps[n.id] = fl
+    # the input of the bisect
+    into_src = []
+    for n, v in _sources_of(ctx, src, bn):
+        if n.id in comps:
+            comps[n.id].lists.add(src)
+            into_src.append(comps[n.id])
+    into_src += [fl for fl in fillers if src in fl.lists and
+                 fl not in into_src]
+    if not into_src:
+        raise AnalysisError('UNRECOGNISED-IDIOM %s: loop sorting pool tasks '
+                            'into the bisect input not found' % f2.where)
+    pool = into_src[0].pool
+    fillers = [fl for fl in fillers if fl.pool == pool and
+               fl.node.loops == into_src[0].node.loops]
+    keeps = sorted({x for fl in fillers for x in fl.lists} - {src})
+    # a comprehension target copied into the bisect input under another name
+    for fl in into_src:
+        if fl.kind == 'comp':
+            keeps = [k for k in keeps if k not in
+                     {t.id for t in fl.node.ast.targets
+                      if isinstance(t, ast.Name)} or k == src]
+    history = ('a waiting task is neither tested nor kept (lost from the '
+               'pool), or both (started and kept: started twice)')
+    if len(fillers) == 1 and fillers[0].kind == 'loop':
+        fl = fillers[0]
+        check_one_outcome(rep, rid, f2, g2, fl.node.id, fl.var,
+                          'wait pool triage', history)
+        return keeps
+    # several places sort the same pool: for every valuation of the tests
+    # they use, exactly one list must receive the task
+    tests = []
+    for fl in fillers:
+        if fl.kind == 'comp':
+            tests.append(fl.cond)
+        else:
+            for nid in g2.loop_body[fl.node.id]:
+                m = g2.nodes[nid]
+                if m.kind == 'test':
+                    tests.append(_formula(m.ast))
+                elif m.kind in ('for', 'while') and nid != fl.node.id:
+                    raise AnalysisError(
+                        'UNRECOGNISED-IDIOM %s: nested loop in the wait pool '
+                        'triage' % f2.where)
+    atoms = set()
+    for t in tests:
+        _atoms(t, atoms)
+    atoms = sorted(atoms)
+    if len(atoms) > 10:
+        raise AnalysisError('UNRECOGNISED-IDIOM %s: wait pool triage over %d '
+                            'tests' % (f2.where, len(atoms)))
+    bad = {}
+    for bits in range(1 << len(atoms)):
+        sigma = {a: bool(bits >> i & 1) for i, a in enumerate(atoms)}
+        got = []
+        for fl in fillers:
+            if fl.kind == 'comp':
+                if _holds(fl.cond, sigma):
+                    got += sorted(fl.lists & ({src} | set(keeps)))[:1]
+            else:
+                got += _simulate(f2, g2, fl, sigma)
+        if len(got) != 1:
+            bad.setdefault(len(got) > 1, (sigma, got))
+    for dup, (sigma, got) in sorted(bad.items()):
+        val = ', '.join('%s`%s`' % ('' if v else 'not ', a)
+                        for a, v in sorted(sigma.items())) or 'always'
+        rep.bad(rid, f2, 'wait pool triage:%s' % ('duplicated' if dup
+                                                   else 'lost'),
+                'wait pool triage: for a task with %s the lists %s receive '
+                'it - exactly one of the bisect input `%s` and the kept '
+                'lists %s is required (%s)'
+                % (val, got or 'none', src, keeps,
+                   'duplicated' if dup else 'lost'),
+                f2.loc(into_src[0].ast), history=history)
+    if not bad:
+        rep.ok(rid, f2, 'wait pool triage: for every valuation of the %d '
+               'test(s) exactly one of `%s` / %s receives the task (%d '
+               'places sort the pool)' % (len(atoms), src, keeps,
+                                          len(fillers)),
+               f2.loc(into_src[0].ast))
+    return keeps
+
+
+def _simulate(f, g, fl, sigma):
+    """the lists which receive the task in one iteration of the loop `fl`
+    when its tests come out as `sigma` says"""
+    start, stop, stop_edge = loop_slice(g, fl.node.id)
+    got, nid, steps = [], start, 0
+    while True:
+        steps += 1
+        if steps > 500:
+            raise AnalysisError('UNRECOGNISED-IDIOM %s: wait pool triage '
+                                'loop does not end' % f.where)
+        n = g.nodes[nid]
+        if stop(nid):
+            return got
+        es = [e for e in g.succ[nid] if e.label != 'exc']
+        if n.kind == 'test':
+            want = 'T' if _holds(_formula(n.ast), sigma) else 'F'
+            es = [e for e in es if e.label == want]
+        elif n.kind == 'stmt':
+            got += _receives(n.ast, fl.var)
+        if len(es) != 1:
+            if not es and n.kind == 'stmt' and \
+                    isinstance(n.ast, (ast.Return, ast.Raise)):
+                return got
+            raise AnalysisError('UNRECOGNISED-IDIOM %s: wait pool triage '
+                                'loop has a shape this rule does not follow'
+                                % f.where)
+        if stop_edge(es[0]):
+            return got
+        nid = es[0].dst
 
 
 _FILLERS = ('append', 'extend', 'update', 'add', 'insert', 'setdefault')
@@ -1051,127 +1299,1190 @@ def r04_6(prog, rep, rid='R04.6'):
 # ------------------------------------------------------------------------------
 # R04.5  cancel of waiting tasks
 #
+# The wait pool is self._waitpool = {priority: {uid: task}}.  A cancel request
+# names uids; for every uid that is waiting, the task must leave its pool AND be
+# collected into the one list that is handed on as CANCELED.  The rule follows
+# values, not spellings: where the elements of the handed-on list come from
+# (appends, extends, comprehensions, loop variables, results of helper methods),
+# whether each of them was taken out of a pool (`pool.pop(uid)`, or a lookup
+# `pool.get(uid)` / `pool[uid]` with a `del pool[uid]` under the same
+# conditions), whether every removal in the cancel code ends up in that list,
+# and whether the key is the requested uid.
+#
+_WP = 'self._waitpool'
+_ITER_WRAPPERS = ('list', 'sorted', 'reversed', 'tuple', 'iter', 'set')
+
+
+def _unwrap_iter(e):
+    """the iterable below list(..) / sorted(..) / filter(None, ..) wrappers"""
+    while True:
+        if isinstance(e, ast.Call) and isinstance(e.func, ast.Name) and \
+                e.func.id in _ITER_WRAPPERS and e.args:
+            e = e.args[0]
+        elif isinstance(e, ast.Call) and isinstance(e.func, ast.Name) and \
+                e.func.id == 'filter' and len(e.args) == 2 and \
+                isinstance(e.args[0], ast.Constant) and \
+                e.args[0].value is None:
+            e = e.args[1]
+        else:
+            return e
+
+
+def _comp_env(root, node):
+    """names bound by the comprehensions of `root` that enclose `node`:
+    {name: (target, iterable)}, or None"""
+    env = {}
+    for c in walk(root):
+        if isinstance(c, (ast.ListComp, ast.SetComp, ast.GeneratorExp,
+                          ast.DictComp)) and \
+                any(y is node for y in walk(c)):
+            for gen in c.generators:
+                for nm in stores_in_target(gen.target):
+                    env[nm] = (gen.target, gen.iter)
+    return env or None
+
+
+def _empty_container(e):
+    return (isinstance(e, (ast.List, ast.Tuple, ast.Set)) and not e.elts) or (
+        isinstance(e, ast.Dict) and not e.keys) or (
+        isinstance(e, ast.Call) and isinstance(e.func, ast.Name) and
+        e.func.id in ('list', 'dict', 'set', 'tuple') and not e.args and
+        not e.keywords)
+
+
+def _tests_only(test, names):
+    """the test looks at nothing but the given local names (truth, identity
+    with None, comparison with constants): whatever it decides, it decides
+    from the value carried by those names alone"""
+    for x in walk(test):
+        if isinstance(x, ast.Name):
+            if x.id not in names and not (x.id == 'bool' and
+                                          isinstance(x.ctx, ast.Load)):
+                return False
+        elif isinstance(x, ast.Call):
+            if not _is_bool_call(x):
+                return False
+        elif isinstance(x, (ast.Attribute, ast.Subscript, ast.Await,
+                            ast.NamedExpr, ast.Lambda)):
+            return False
+    return True
+
+
+class _Ctx:
+    """one function as reached from the scheduling loop: its cfg, what its
+    parameters are bound to at the call, and what its expressions are
+    relative to the wait pool (0 the pool of pools, 1 the pool of one
+    priority {uid: task}, 2 a task; None anything else)"""
+
+    def __init__(self, prog, f, bind=None):
+        self.prog, self.f = prog, f
+        self.g = cfg_of(f)
+        self.smap = I.stmt_node_map(self.g)
+        self.bind = bind or {}       # param -> (arg, caller ctx, node, env)
+        self._lv = {}
+        self._rd = {}
+
+    def defs(self, name, at):
+        k = (name, at.id)
+        if k not in self._rd:
+            self._rd[k] = reaching_defs(self.g, name, at.id)
+        return self._rd[k]
+
+    def level(self, e, at, env=None, depth=6):
+        if e is None or at is None or depth <= 0:
+            return None
+        k = (id(e), at.id)
+        if not env and k in self._lv:
+            return self._lv[k]
+        lv = self._level(e, at, env, depth)
+        if not env:
+            self._lv[k] = lv
+        return lv
+
+    def _level(self, e, at, env, depth):
+        if isinstance(e, ast.Attribute):
+            return 0 if dotted(e) == _WP else None
+        if isinstance(e, ast.Subscript):
+            lv = self.level(e.value, at, env, depth)
+            return lv + 1 if lv in (0, 1) else None
+        if isinstance(e, ast.Call) and isinstance(e.func, ast.Attribute) and \
+                e.func.attr in ('get', 'pop', 'setdefault') and e.args:
+            lv = self.level(e.func.value, at, env, depth)
+            return lv + 1 if lv in (0, 1) else None
+        if isinstance(e, ast.Name):
+            if env and e.id in env:
+                tgt, it = env[e.id]
+                env2 = {k: v for k, v in env.items() if k != e.id}
+                return self._elem_level(tgt, it, e.id, at, env2, depth - 1)
+            if e.id in self.bind:
+                a, cctx, cat, cenv = self.bind[e.id]
+                return cctx.level(a, cat, cenv, depth - 1)
+            lvs = set()
+            for n, v in self.defs(e.id, at):
+                if v is not None:
+                    lvs.add(self.level(v, n, None, depth - 1))
+                elif n.kind == 'for':
+                    lvs.add(self._elem_level(n.ast.target, n.ast.iter, e.id,
+                                             n, None, depth - 1))
+                else:
+                    lvs.add(None)
+            return lvs.pop() if len(lvs) == 1 else None
+        return None
+
+    def _elem_level(self, target, it, name, at, env, depth):
+        it = _unwrap_iter(it)
+        if isinstance(it, ast.Call) and isinstance(it.func, ast.Attribute) \
+                and not it.args:
+            lv = self.level(it.func.value, at, env, depth)
+            if lv in (0, 1):
+                if it.func.attr == 'values' and isinstance(target, ast.Name):
+                    return lv + 1
+                if it.func.attr == 'items' and \
+                        isinstance(target, (ast.Tuple, ast.List)) and \
+                        len(target.elts) == 2 and \
+                        isinstance(target.elts[1], ast.Name) and \
+                        target.elts[1].id == name:
+                    return lv + 1
+        return None
+
+    def canon(self, e, at, env=None, depth=4):
+        """spelling of a pool / key expression with aliases of pool paths
+        (`pool = self._waitpool[priority]`) expanded"""
+        if isinstance(e, ast.Name) and depth > 0 and at is not None and \
+                not (env and e.id in env) and e.id not in self.bind:
+            ds = self.defs(e.id, at)
+            if len(ds) == 1 and ds[0][1] is not None and \
+                    isinstance(ds[0][1], (ast.Name, ast.Attribute,
+                                          ast.Subscript)) and \
+                    self.level(ds[0][1], ds[0][0]) in (0, 1):
+                return self.canon(ds[0][1], ds[0][0], None, depth - 1)
+            return e.id
+        if isinstance(e, ast.Subscript):
+            return '%s[%s]' % (self.canon(e.value, at, env, depth),
+                               self.canon(e.slice, at, env, depth))
+        return unparse(e)
+
+    def removals(self):
+        """[(cfg node, ast node, pool expr, key expr)]: `del P[k]` and
+        `P.pop(k ..)` on the pool P of one priority"""
+        out = []
+        for n in self.g.nodes:
+            if n.ast is None or n.kind in ('while', 'dispatch', 'handler'):
+                continue
+            roots = [n.ast]
+            if n.kind == 'for':
+                roots = [n.ast.iter]
+            elif n.kind == 'with':
+                roots = [i.context_expr for i in n.ast.items]
+            for r in roots:
+                for x in walk(r):
+                    if isinstance(x, ast.Delete):
+                        for t in x.targets:
+                            if isinstance(t, ast.Subscript) and \
+                                    self.level(t.value, n) == 1:
+                                out.append((n, x, t.value, t.slice))
+                    elif isinstance(x, ast.Call) and \
+                            isinstance(x.func, ast.Attribute) and \
+                            x.func.attr == 'pop' and x.args and \
+                            self._comp_level(r, x, n) == 1:
+                        out.append((n, x, x.func.value, x.args[0]))
+        return out
+
+    def _comp_level(self, root, call, n):
+        """level of the receiver of `call`, which may sit inside a
+        comprehension of the statement `root`"""
+        return self.level(call.func.value, n, _comp_env(root, call))
+
+
+class _Src:
+    """where a collected value comes from.  kind: 'pop' (taken out of a pool),
+    'look' (looked up in a pool), 'none' (the constant None), 'other'"""
+
+    def __init__(self, kind, node, ctx, at, env, trail, pool=None, key=None):
+        self.kind, self.node, self.ctx, self.at = kind, node, ctx, at
+        self.env, self.trail, self.pool, self.key = env, trail, pool, key
+
+
+class _CancelFlow:
+
+    def __init__(self, prog):
+        self.prog = prog
+        self._ctxs = {}
+
+    def ctx(self, f, call=None, caller=None, at=None, env=None):
+        key = (id(f.node), id(call))
+        if key in self._ctxs:
+            return self._ctxs[key]
+        bind = {}
+        if call is not None:
+            if env is None and at is not None and at.ast is not None:
+                env = _comp_env(at.ast.iter if at.kind == 'for' else at.ast,
+                                call)
+            params = list(f.params)
+            if isinstance(call.func, ast.Attribute) and params and \
+                    params[0] in ('self', 'cls'):
+                params = params[1:]
+            a = f.node.args
+            if a.vararg or a.kwarg or any(isinstance(x, ast.Starred)
+                                          for x in call.args) or \
+                    any(k.arg is None for k in call.keywords):
+                return None
+            for i, x in enumerate(call.args):
+                if i >= len(params):
+                    return None
+                bind[params[i]] = (x, caller, at, env)
+            for k in call.keywords:
+                if k.arg not in params:
+                    return None
+                bind[k.arg] = (k.value, caller, at, env)
+        c = _Ctx(self.prog, f, bind)
+        self._ctxs[key] = c
+        return c
+
+    def helper(self, ctx, call):
+        """FuncInfo of a method / nested function of the package called by
+        `call` (not a hand-on), else None"""
+        if I.is_handon(call):
+            return None
+        h = self.prog.resolve_call(ctx.f, call)
+        if h is None or h.node is ctx.f.node or \
+                not isinstance(h.node, (ast.FunctionDef,)):
+            return None
+        return h
+
+    # -- origins ---------------------------------------------------------------
+    def origins(self, e, ctx, at, env, trail, depth=12):
+        def S(kind, **kw):
+            return [_Src(kind, e, ctx, at, env, trail, **kw)]
+        if depth <= 0 or at is None:
+            return S('other')
+        if isinstance(e, ast.Constant) and e.value is None:
+            return S('none')
+        if isinstance(e, ast.IfExp):
+            return self.origins(e.body, ctx, at, env, trail, depth - 1) + \
+                self.origins(e.orelse, ctx, at, env, trail, depth - 1)
+        if isinstance(e, ast.Call):
+            fn = e.func
+            if isinstance(fn, ast.Attribute) and fn.attr in ('pop', 'get') \
+                    and e.args and ctx.level(fn.value, at, env) == 1:
+                return S('pop' if fn.attr == 'pop' else 'look',
+                         pool=fn.value, key=e.args[0])
+            h = self.helper(ctx, e)
+            c2 = self.ctx(h, e, ctx, at, env) if h is not None else None
+            if c2 is None:
+                return S('other')
+            out = []
+            tr = trail + (('call', ctx, at, e),)
+            for r in walk(h.node):
+                if isinstance(r, ast.Return):
+                    rn = c2.smap.get(id(r))
+                    if r.value is None:
+                        out += [_Src('none', r, c2, rn, None, tr)]
+                    else:
+                        out += self.origins(
+                            r.value, c2, rn, None,
+                            tr + (('return', c2, rn, r.value),), depth - 1)
+            return out or S('other')
+        if isinstance(e, ast.Subscript) and \
+                ctx.level(e.value, at, env) == 1:
+            return S('look', pool=e.value, key=e.slice)
+        if isinstance(e, ast.Name):
+            if env and e.id in env:
+                tgt, it = env[e.id]
+                if not isinstance(tgt, ast.Name):
+                    return S('other')
+                env2 = {k: v for k, v in env.items() if k != e.id}
+                return self.elems(it, ctx, at, env2, trail, depth - 1)
+            if e.id in ctx.bind:
+                a, cctx, cat, cenv = ctx.bind[e.id]
+                return self.origins(a, cctx, cat, cenv, trail, depth - 1)
+            out = []
+            for n, v in ctx.defs(e.id, at):
+                if v is not None:
+                    out += self.origins(
+                        v, ctx, n, None,
+                        trail + (('assign', ctx, n, e),), depth - 1)
+                elif n.kind == 'for' and isinstance(n.ast.target, ast.Name):
+                    out += self.elems(
+                        n.ast.iter, ctx, n, None,
+                        trail + (('for', ctx, n, e),), depth - 1)
+                else:
+                    out += S('other')
+            return out or S('other')
+        return S('other')
+
+    def elems(self, it, ctx, at, env, trail, depth=12):
+        """origins of the elements of the iterable `it`"""
+        def S(kind):
+            return [_Src(kind, it, ctx, at, env, trail)]
+        if depth <= 0 or at is None:
+            return S('other')
+        it = _unwrap_iter(it)
+        if _empty_container(it):
+            return []
+        if isinstance(it, (ast.ListComp, ast.GeneratorExp, ast.SetComp)):
+            env2 = dict(env or {})
+            for gen in it.generators:
+                for nm in stores_in_target(gen.target):
+                    env2[nm] = (gen.target, gen.iter)
+            return self.origins(it.elt, ctx, at, env2,
+                                trail + (('comp', ctx, at, it),), depth - 1)
+        if isinstance(it, (ast.List, ast.Tuple, ast.Set)):
+            out = []
+            for x in it.elts:
+                out += self.origins(x, ctx, at, env, trail, depth - 1)
+            return out
+        if isinstance(it, ast.BinOp) and isinstance(it.op, ast.Add):
+            return self.elems(it.left, ctx, at, env, trail, depth - 1) + \
+                self.elems(it.right, ctx, at, env, trail, depth - 1)
+        if isinstance(it, ast.Call):
+            h = self.helper(ctx, it)
+            c2 = self.ctx(h, it, ctx, at, env) if h is not None else None
+            if c2 is None:
+                return S('other')
+            out = []
+            tr = trail + (('call', ctx, at, it),)
+            for r in walk(h.node):
+                if isinstance(r, ast.Return) and r.value is not None:
+                    rn = c2.smap.get(id(r))
+                    out += self.elems(r.value, c2, rn, None,
+                                      tr + (('return', c2, rn, r.value),),
+                                      depth - 1)
+            return out
+        if isinstance(it, ast.Name):
+            if env and it.id in env:
+                return S('other')
+            if it.id in ctx.bind:
+                a, cctx, cat, cenv = ctx.bind[it.id]
+                return self.elems(a, cctx, cat, cenv, trail, depth - 1)
+            creators = ctx.defs(it.id, at)
+            if not creators:
+                return S('other')
+            out = []
+            after = set()
+            for n, v in creators:
+                after |= ctx.g.reachable(n.id)
+                if isinstance(n.ast, ast.AugAssign):
+                    continue                 # a fill, handled below
+                if v is None:
+                    out += S('other')
+                else:
+                    out += self.elems(v, ctx, n, None,
+                                      trail + (('assign', ctx, n, it),),
+                                      depth - 1)
+            # fills between a creation and the use
+            for m in ctx.g.stmt_nodes():
+                if m.kind != 'stmt' or m.id not in after or \
+                        at.id not in ctx.g.reachable(m.id):
+                    continue
+                a = m.ast
+                if isinstance(a, ast.AugAssign) and \
+                        isinstance(a.target, ast.Name) and \
+                        a.target.id == it.id and isinstance(a.op, ast.Add):
+                    out += self.elems(a.value, ctx, m, None,
+                                      trail + (('extend', ctx, m, a.value),),
+                                      depth - 1)
+                    continue
+                if not (isinstance(a, ast.Expr) and
+                        isinstance(a.value, ast.Call) and
+                        isinstance(a.value.func, ast.Attribute) and
+                        isinstance(a.value.func.value, ast.Name) and
+                        a.value.func.value.id == it.id and a.value.args):
+                    continue
+                c = a.value
+                if c.func.attr in ('append', 'add', 'appendleft', 'insert'):
+                    x = c.args[-1]
+                    out += self.origins(x, ctx, m, None,
+                                        trail + (('append', ctx, m, x),),
+                                        depth - 1)
+                elif c.func.attr in ('extend', 'update'):
+                    out += self.elems(c.args[0], ctx, m, None,
+                                      trail + (('extend', ctx, m, c.args[0]),),
+                                      depth - 1)
+            return out
+        return S('other')
+
+    # -- the requested uid -----------------------------------------------------
+    def is_request(self, e, ctx, at, env, depth=8):
+        """the iterable is the bulk of uids taken from the scheduler queue:
+        True / False / None (unknown)"""
+        if depth <= 0 or at is None:
+            return None
+        e = _unwrap_iter(e)
+        if not isinstance(e, ast.Name):
+            return None if isinstance(e, ast.Call) else False
+        if env and e.id in env:
+            return None
+        if e.id in ctx.bind:
+            a, cctx, cat, cenv = ctx.bind[e.id]
+            return self.is_request(a, cctx, cat, cenv, depth - 1)
+        res = set()
+        for n, v in ctx.defs(e.id, at):
+            val = getattr(n.ast, 'value', None) if n.kind == 'stmt' else None
+            if isinstance(val, ast.Call) and \
+                    isinstance(val.func, ast.Attribute) and \
+                    val.func.attr in ('get', 'get_nowait') and \
+                    '_queue_sched' in unparse(val.func.value):
+                res.add(True)
+            elif v is not None and isinstance(_unwrap_iter(v), ast.Name):
+                res.add(self.is_request(v, ctx, n, None, depth - 1))
+            elif n.kind == 'for':
+                res.add(False)
+            else:
+                res.add(None)
+        return res.pop() if len(res) == 1 else None
+
+    def is_uid(self, k, ctx, at, env, depth=8):
+        """the key is one of the requested uids: True / False / None"""
+        if depth <= 0 or at is None:
+            return None
+        if isinstance(k, ast.Constant):
+            return False
+        if not isinstance(k, ast.Name):
+            return None
+        if env and k.id in env:
+            tgt, it = env[k.id]
+            if not isinstance(tgt, ast.Name):
+                return None
+            env2 = {x: v for x, v in env.items() if x != k.id}
+            return self.is_request(it, ctx, at, env2, depth - 1)
+        if k.id in ctx.bind:
+            a, cctx, cat, cenv = ctx.bind[k.id]
+            return self.is_uid(a, cctx, cat, cenv, depth - 1)
+        res = set()
+        for n, v in ctx.defs(k.id, at):
+            if v is not None:
+                res.add(self.is_uid(v, ctx, n, None, depth - 1))
+            elif n.kind == 'for' and isinstance(n.ast.target, ast.Name):
+                res.add(self.is_request(n.ast.iter, ctx, n, None, depth - 1))
+            else:
+                res.add(None)
+        return res.pop() if len(res) == 1 else None
+
+
+def _cancel_sites(prog, cf, f0):
+    """[(ctx, hand-on call)]: the CANCELED hand-ons of a list in
+    _schedule_incoming or in a helper it calls (two levels)"""
+    canceled = prog.const('states.py', 'CANCELED')
+    out = []
+    todo = [(cf.ctx(f0), 2)]
+    seen = set()
+    while todo:
+        ctx, depth = todo.pop(0)
+        if id(ctx.f.node) in seen:
+            continue
+        seen.add(id(ctx.f.node))
+        for c in calls_in(ctx.f.node):
+            if I.is_handon(c):
+                if I.handon_state(prog, ctx.f, c) == canceled:
+                    out.append((ctx, c))
+                continue
+            if depth <= 0:
+                continue
+            h = cf.helper(ctx, c)
+            if h is not None and h.module is f0.module:
+                at = ctx.smap.get(id(c))
+                c2 = cf.ctx(h, c, ctx, at, None)
+                if c2 is not None:
+                    todo.append((c2, depth - 1))
+    return out
+
+
 def r04_5(prog, rep, rid='R04.5'):
     rep.rule(rid, 'cancel of waiting tasks: removal from the pool and '
              'collection for the CANCELED hand-on happen together, keyed by '
              'the requested uid; the collected tasks are handed on once',
              minimum=1)
     f = prog.method(BASE[0], BASE[1], '_schedule_incoming')
-    g = cfg_of(f)
-    smap = I.stmt_node_map(g)
-    canceled = prog.const('states.py', 'CANCELED')
-    hands = [c for c in calls_in(f.node) if I.is_handon(c) and
-             I.handon_state(prog, f, c) == canceled]
-    if not hands:
+    rep.saw(f)
+    cf = _CancelFlow(prog)
+    sites = _cancel_sites(prog, cf, f)
+    if not sites:
         raise AnalysisError('UNRECOGNISED-IDIOM %s: no CANCELED hand-on'
                             % f.where)
-    for h in hands:
-        thing = I.handon_thing(h)
-        if not isinstance(thing, ast.Name):
-            raise AnalysisError('UNRECOGNISED-IDIOM %s: CANCELED hand-on of '
-                                '`%s`' % (f.where, short(thing, 30)))
-        lst = thing.id
-        hn = smap[id(h)]
-        apps = [c for c in calls_in(f.node)
-                if isinstance(c.func, ast.Attribute) and
-                c.func.attr == 'append' and
-                isinstance(c.func.value, ast.Name) and c.func.value.id == lst]
-        pool_al = I.Aliases(prog, None, {f.name: f}, 'self._waitpool')
-        dels = [n for n in walk(f.node) if isinstance(n, ast.Delete) and
-                isinstance(n.targets[0], ast.Subscript) and
-                pool_al.is_rooted_expr(f.name, n.targets[0])]
-        if not apps:
-            rep.bad(rid, f, h, 'the list `%s` handed on as CANCELED is never '
-                    'filled: waiting tasks named in a cancel request are '
-                    'removed (if at all) without a final state' % lst,
-                    f.loc(h), history='cancel of a waiting task: it vanishes '
-                    'from the pool, the application never sees CANCELED')
-            continue
-        for a in apps:
-            an = smap[id(a)]
-            pair = [d for d in dels
-                    if set(guards(g, smap[id(d)].id)) == set(guards(g, an.id))
-                    and smap[id(d)].loops == an.loops]
-            if len(pair) != 1 and dels:
-                # both a removal and a collection exist but under different
-                # tests (e.g. the lookup+removal sits in a helper that returns
-                # the task): decide by paths - the collection must pass a
-                # removal and a removal must reach the collection
-                dn = [smap[id(x)].id for x in dels]
-                st0 = loop_slice(g, an.loops[-1])[0] if an.loops else \
-                    g.entry.id
-                passes = must_pass_feasible(g, st0, an.id, dn)
-                fors = [h for h in an.loops if g.nodes[h].kind == 'for']
-                near = [x for x in dn if fors and x in g.loop_body[fors[0]]]
-                if not passes and not near:
-                    # no removal at all while the requested uids are walked
-                    rep.bad(rid, f, a, 'a waiting task is collected for the '
-                            'CANCELED hand-on but no removal from the wait '
-                            'pool happens in the loop over the requested uids',
-                            f.loc(a), history='cancel of a waiting task: it '
-                            'is reported CANCELED and later started')
-                    continue
-                if not passes:
+    for ctx, h in sites:
+        _cancel_site(prog, rep, rid, f, cf, ctx, h,
+                     [c for x, c in sites if x is ctx])
+
+
+def _hop_nodes(s, kinds=('append', 'extend', 'return')):
+    return [hop for hop in s.trail if hop[0] in kinds]
+
+
+def _cancel_site(prog, rep, rid, f, cf, ctx, h, hands):
+    g, smap = ctx.g, ctx.smap
+    fx = ctx.f
+    rep.saw(fx)
+    thing = I.handon_thing(h)
+    if not isinstance(thing, ast.Name):
+        raise AnalysisError('UNRECOGNISED-IDIOM %s: CANCELED hand-on of '
+                            '`%s`' % (fx.where, short(thing, 30)))
+    lst = thing.id
+    hn = smap[id(h)]
+    # the conditions of the hand-on (a test of the list itself - `if
+    # to_cancel:` - changes nothing: advance returns at once for an empty list)
+    base = {(t, lab) for t, lab in guards(g, hn.id)
+            if not (_tests_only(g.nodes[t].ast, {lst}) and _eval3(
+                _formula(g.nodes[t].ast), {lst: True}) == (lab == 'T'))}
+    srcs = cf.elems(thing, ctx, hn, None, ())
+    other = [s for s in srcs if s.kind == 'other']
+    if other:
+        raise AnalysisError(
+            'UNRECOGNISED-IDIOM %s: `%s` (handed on as CANCELED) receives '
+            '`%s`, which is not traced to a lookup in the wait pool'
+            % (fx.where, lst, short(other[0].node, 40)))
+    taken = [s for s in srcs if s.kind in ('pop', 'look')]
+
+    # removals in the cancel code: in the function of the hand-on those under
+    # (at least) the conditions of the hand-on; in helpers all
+    def region_removals(c):
+        rs = c.removals()
+        if c is ctx:
+            rs = [r for r in rs if base <= set(guards(c.g, r[0].id))]
+        return rs
+    ctxs = [ctx]
+    for s in taken:
+        if not any(s.ctx is c for c in ctxs):
+            ctxs.append(s.ctx)
+    accounted = set()
+
+    if not taken:
+        rep.bad(rid, f, h, 'the list `%s` handed on as CANCELED is never '
+                'filled: waiting tasks named in a cancel request are '
+                'removed (if at all) without a final state' % lst,
+                fx.loc(h), history='cancel of a waiting task: it vanishes '
+                'from the pool, the application never sees CANCELED')
+        return
+
+    colls = []                       # cfg nodes (of ctx) which fill the list
+    for s in taken:
+        c = s.ctx
+        hops = _hop_nodes(s)
+        for hop in s.trail:
+            if hop[1] is ctx and hop[0] in ('append', 'extend') or \
+                    hop[1] is ctx and hop[0] == 'assign' and \
+                    isinstance(hop[3], ast.Name) and hop[3].id == lst:
+                if hop[2] not in colls:
+                    colls.append(hop[2])
+        # the value is out of the pool at `gone`: the pop itself, or the
+        # removal paired with the lookup
+        if s.kind == 'pop':
+            accounted.add(id(s.node))
+            gone_guards = set(guards(c.g, s.at.id))
+            outer = list(reversed(s.trail))
+            what = 'taking a task out of the wait pool with `%s` collects ' \
+                'it for CANCELED' % short(s.node, 40)
+        else:
+            near = [hop for hop in reversed(s.trail)
+                    if hop[0] in ('append', 'extend', 'return', 'comp')
+                    and hop[1] is c]
+            if not near or near[0][0] == 'comp':
+                raise AnalysisError(
+                    'UNRECOGNISED-IDIOM %s: the task looked up with `%s` is '
+                    'collected for CANCELED in a way this rule does not '
+                    'follow' % (c.f.where, short(s.node, 40)))
+            cp = near[0][2]
+            pk = (c.canon(s.pool, s.at, s.env), c.canon(s.key, s.at, s.env))
+            rs = region_removals(c)
+            same = [r for r in rs
+                    if (c.canon(r[2], r[0]), c.canon(r[3], r[0])) == pk]
+            cg = set(guards(c.g, cp.id))
+            pair = [r for r in same if set(guards(c.g, r[0].id)) == cg and
+                    r[0].loops == cp.loops]
+            wrong = [r for r in rs if r not in same and
+                     set(guards(c.g, r[0].id)) == cg and
+                     r[0].loops == cp.loops]
+            if not pair and wrong:
+                rep.bad(rid, f, wrong[0][1], 'the wait pool entry deleted '
+                        '(`%s`) is not the one looked up (`%s`) and '
+                        'collected for the CANCELED hand-on'
+                        % (short(wrong[0][1], 40), short(s.node, 40)),
+                        c.f.loc(wrong[0][1]), history='cancel of task A '
+                        'removes task B from the wait pool')
+                continue
+            if not pair and same:
+                # lookup+removal and collection under different tests (e.g.
+                # `found = None` ... `if found:`): decide by paths - the
+                # collection must pass a removal
+                st0 = loop_slice(c.g, cp.loops[-1])[0] if cp.loops else \
+                    c.g.entry.id
+                if not must_pass_feasible(c.g, st0, cp.id,
+                                          [r[0].id for r in same]):
                     raise AnalysisError(
                         'UNRECOGNISED-IDIOM %s: removal from the wait pool '
                         'and collection for CANCELED are under different '
-                        'tests' % f.where)
-                rep.ok(rid, f, 'collecting a task for CANCELED passes its '
-                       'removal from the wait pool', f.loc(a))
+                        'tests' % c.f.where)
+                pair = same
+            if not pair:
+                rep.bad(rid, f, near[0][3], 'a waiting task is looked up '
+                        'with `%s` and collected for the CANCELED hand-on '
+                        'without being removed from the wait pool under the '
+                        'same conditions' % short(s.node, 40),
+                        c.f.loc(near[0][3]),
+                        history='cancel of a waiting task: it is reported '
+                        'CANCELED and later started')
                 continue
-            rep.check(len(pair) == 1, rid, f, 'collecting a task for CANCELED '
-                      'and deleting it from the wait pool happen together',
-                      construct=a, message='a waiting task is collected for '
-                      'the CANCELED hand-on without being deleted from the '
-                      'wait pool under the same conditions (or vice versa)',
-                      loc=f.loc(a),
-                      history='cancel of a waiting task: it is reported '
-                      'CANCELED and later started, or silently removed '
-                      'without a final state')
-            # keyed by the uid of the request
-            d = Deps(f.node)
-            for dd in pair:
-                key = dd.targets[0].slice
-                loopvars = set()
-                for hid in an.loops:
-                    hn2 = g.nodes[hid]
-                    if hn2.kind == 'for':
-                        loopvars |= set(stores_in_target(hn2.ast.target))
-                okk = isinstance(key, ast.Name) and key.id in loopvars
-                # and the collected task was looked up by that key
-                arg = a.args[0]
-                look = False
-                for n in walk(f.node):
-                    if isinstance(n, ast.Assign) and isinstance(arg, ast.Name) \
-                            and any(isinstance(t, ast.Name) and t.id == arg.id
-                                    for t in n.targets) and \
-                            isinstance(key, ast.Name) and key.id in \
-                            {x.id for x in walk(n.value)
-                             if isinstance(x, ast.Name)} and \
-                            pool_al.is_rooted_expr(f.name, n.value):
-                        look = True
-                rep.check(okk and look, rid, f, 'the task removed is the one '
-                          'looked up by the requested uid', construct=dd,
-                          message='the wait pool entry deleted / the task '
-                          'collected is not the one named by the requested '
-                          'uid', loc=f.loc(dd),
-                          history='cancel of task A removes task B from the '
-                          'wait pool')
-        # handed on once, after the collection loops, unconditionally within
-        # the cancel branch
-        outer = [hh for hh in (smap[id(a)].loops for a in apps)]
-        inner_loops = set()
-        for a in apps:
-            inner_loops |= set(smap[id(a)].loops) - set(hn.loops)
-        okh = bool(inner_loops) and I.flag(h, 'publish') is True and \
-            set(guards(g, hn.id)) <= set(guards(g, smap[id(apps[0])].id))
-        rep.check(okh, rid, f, 'the collected tasks are handed on as CANCELED '
-                  'once after the collection, with publish=True',
-                  construct=h, message='the CANCELED hand-on of `%s` is inside '
-                  'the collection loop, conditional, or not published' % lst,
-                  loc=f.loc(h),
-                  history='cancel of two waiting tasks: the first is reported '
-                  'CANCELED twice (or never)')
+            for r in pair:
+                accounted.add(id(r[1]))
+            gone_guards = cg
+            outer = list(reversed(s.trail))
+            outer = outer[outer.index(near[0]) + 1:]
+            what = 'collecting the task looked up with `%s` for CANCELED ' \
+                'and removing it from the wait pool happen together' \
+                % short(s.node, 40)
+        # from there on the task must not be dropped: whatever else guards
+        # the way into the list may only look at the value itself (`if task`)
+        for hop in outer:
+            kind, hc, hnode, hx = hop
+            if kind == 'comp':
+                if any(y is s.node for y in walk(hx)):
+                    continue
+                names = set()
+                for gen in hx.generators:
+                    names |= set(stores_in_target(gen.target))
+                tests = [t for gen in hx.generators for t in gen.ifs]
+            elif kind in ('append', 'extend', 'return'):
+                gs = set(guards(hc.g, hnode.id))
+                if hc is ctx:
+                    gs -= base
+                if hc is c:
+                    gs -= gone_guards
+                names = {x.id for x in walk(hx) if isinstance(x, ast.Name)}
+                tests = [hc.g.nodes[t].ast for t, lab in gs]
+            else:
+                continue
+            for t in tests:
+                if not _tests_only(t, names):
+                    raise AnalysisError(
+                        'UNRECOGNISED-IDIOM %s: a task taken out of the wait '
+                        'pool is collected for CANCELED only under `%s`'
+                        % (hc.f.where, short(t, 50)))
+        # keyed by the requested uid
+        ku = cf.is_uid(s.key, c, s.at, s.env)
+        if ku is None:
+            raise AnalysisError(
+                'UNRECOGNISED-IDIOM %s: the key `%s` of the wait pool lookup '
+                'is not traced to the uids of the cancel request'
+                % (c.f.where, short(s.key, 30)))
+        rep.check(ku, rid, f, 'the task removed is the one looked up by the '
+                  'requested uid', construct=s.node,
+                  message='the wait pool entry `%s` removed / collected for '
+                  'CANCELED is not keyed by a uid of the cancel request'
+                  % short(s.node, 40), loc=c.f.loc(s.node),
+                  history='cancel of task A removes task B from the wait pool')
+        rep.ok(rid, f, what, c.f.loc(s.node))
+
+    # every removal in the cancel code ends up in the list
+    used_calls = {id(hop[3]) for s in srcs for hop in s.trail
+                  if hop[0] == 'call'}
+    for c in ctxs:
+        for n, a, pool, key in region_removals(c):
+            if id(a) not in accounted:
+                rep.bad(rid, f, a, 'cancel: `%s` removes a task from the '
+                        'wait pool, but that task does not reach the list '
+                        '`%s` handed on as CANCELED' % (short(a, 50), lst),
+                        c.f.loc(a), history='cancel of a waiting task: it '
+                        'is silently removed without a final state, the '
+                        'application waits forever')
+        nodes = [n for n in c.g.nodes if n.ast is not None and
+                 (c is not ctx or base <= set(guards(c.g, n.id)))]
+        for n in nodes:
+            if n.kind not in ('stmt', 'test'):
+                continue
+            for call in calls_in(n.ast):
+                hh = cf.helper(c, call)
+                if hh is None or id(call) in used_calls or hh is fx:
+                    continue
+                c2 = cf.ctx(hh, call, c, n, None)
+                if c2 is not None and c2.removals() and \
+                        not _has_canceled_handon(prog, hh):
+                    rep.bad(rid, f, call, 'cancel: `%s` removes a task from '
+                            'the wait pool, but its result does not reach '
+                            'the list `%s` handed on as CANCELED'
+                            % (short(call, 50), lst), c.f.loc(call),
+                            history='cancel of a waiting task: it is '
+                            'silently removed without a final state')
+
+    # handed on once, after the collection, unconditionally within the cancel
+    # code, with publish=True
+    hg = base
+    empty = [(t, 'F' if lab == 'T' else 'T')     # way of the empty list
+             for t, lab in set(guards(g, hn.id)) - base]
+    okh = len(hands) == 1 and I.flag(h, 'publish') is True and bool(colls)
+    for cn in colls:
+        inner = set(cn.loops) - set(hn.loops)
+        okh = okh and set(hn.loops) <= set(cn.loops) and \
+            hg <= set(guards(g, cn.id)) and \
+            (bool(inner) or not _is_append(cn)) and \
+            _next_iter_or_exit(g, hn) not in g.reachable(
+                cn.id, skip_nodes={hn.id}, skip_edges=empty,
+                labels={'next', 'T', 'F', 'iter', 'done'})
+    rep.check(okh, rid, f, 'the collected tasks are handed on as CANCELED '
+              'once after the collection, with publish=True',
+              construct=h, message='the CANCELED hand-on of `%s` is inside '
+              'the collection loop, conditional, not reached after the '
+              'collection, or not published' % lst,
+              loc=fx.loc(h),
+              history='cancel of two waiting tasks: the first is reported '
+              'CANCELED twice (or never)')
+
+
+def _is_append(n):
+    a = n.ast
+    return n.kind == 'stmt' and isinstance(a, ast.Expr) and \
+        isinstance(a.value, ast.Call) and \
+        isinstance(a.value.func, ast.Attribute) and \
+        a.value.func.attr in ('append', 'add', 'appendleft', 'insert')
+
+
+def _has_canceled_handon(prog, f):
+    canceled = prog.const('states.py', 'CANCELED')
+    return any(I.is_handon(c) and I.handon_state(prog, f, c) == canceled
+               for c in calls_in(f.node))
+
+
+# ------------------------------------------------------------------------------
+# R04.7  what the scheduler relies on when it asks is_canceled()
+#
+# After a task was inserted into the wait pool the scheduler asks
+# self.is_canceled(task) and, on a true answer, deletes the task from the pool
+# again - nothing else is done with it.  So the answer may be true only on
+# paths on which is_canceled has handed that task on as CANCELED (else the task
+# is in none of started / waiting / failed / canceled), and it must be true
+# when it did (else the task is reported CANCELED and started later).  Paths
+# are followed with the outcome of every test remembered; a test for a key of
+# the task dict is followed only the way it can come out for a task that has
+# passed BaseComponent.advance (which reads thing['uid'], thing['type'],
+# thing['state'] of everything it is given).
+#
+def _eval3(fm, facts):
+    if fm[0] == 'atom':
+        return facts.get(fm[1])
+    if fm[0] == 'const':
+        return fm[1]
+    if fm[0] == 'not':
+        v = _eval3(fm[1], facts)
+        return None if v is None else not v
+    vals = [_eval3(x, facts) for x in fm[1]]
+    if fm[0] == 'and':
+        if any(v is False for v in vals):
+            return False
+        return True if all(v is True for v in vals) else None
+    if any(v is True for v in vals):
+        return True
+    return False if all(v is False for v in vals) else None
+
+
+def _key_test(e, param):
+    """(key, positive) when the atomic test `e` asks whether the dict `param`
+    has the constant key (positive: true when it has): 'K' in p,
+    'K' in p.keys(), p.get('K'), p.get('K') is not None"""
+    def is_p(x):
+        if isinstance(x, ast.Call) and isinstance(x.func, ast.Attribute) and \
+                x.func.attr == 'keys' and not x.args:
+            x = x.func.value
+        return isinstance(x, ast.Name) and x.id == param
+
+    def get_key(x):
+        if isinstance(x, ast.Call) and isinstance(x.func, ast.Attribute) and \
+                x.func.attr == 'get' and is_p(x.func.value) and \
+                len(x.args) == 1 and isinstance(x.args[0], ast.Constant):
+            return x.args[0].value
+        return None
+    if isinstance(e, ast.UnaryOp) and isinstance(e.op, ast.Not):
+        r = _key_test(e.operand, param)
+        return (r[0], not r[1]) if r else None
+    if _is_bool_call(e):
+        return _key_test(e.args[0], param)
+    if isinstance(e, ast.Compare) and len(e.ops) == 1:
+        op, l, r = e.ops[0], e.left, e.comparators[0]
+        if isinstance(op, (ast.In, ast.NotIn)) and \
+                isinstance(l, ast.Constant) and is_p(r):
+            return l.value, isinstance(op, ast.In)
+        if isinstance(op, (ast.Is, ast.IsNot, ast.Eq, ast.NotEq)) and \
+                isinstance(r, ast.Constant) and r.value is None and \
+                get_key(l) is not None:
+            return get_key(l), isinstance(op, (ast.IsNot, ast.NotEq))
+        return None
+    k = get_key(e)
+    return (k, True) if k is not None else None
+
+
+def _carried_keys(prog, f):
+    """constant keys that BaseComponent.advance reads (or writes) on every
+    thing it is given, on every path through its loop over the things"""
+    g = cfg_of(f)
+    params = [p for p in f.params if p != 'self']
+    keys = set()
+    for n in g.nodes:
+        if n.kind != 'for' or not isinstance(n.ast.target, ast.Name) or \
+                not isinstance(n.ast.iter, ast.Name) or not params or \
+                n.ast.iter.id != params[0]:
+            continue
+        v = n.ast.target.id
+        lstart = loop_slice(g, n.id)[0]
+        for m in g.nodes:
+            if m.id not in g.loop_body[n.id] or m.ast is None or \
+                    m.kind not in ('stmt', 'test'):
+                continue
+            ks = {x.slice.value for x in walk(m.ast)
+                  if isinstance(x, ast.Subscript) and
+                  isinstance(x.value, ast.Name) and x.value.id == v and
+                  isinstance(x.slice, ast.Constant) and
+                  not isinstance(x.ctx, ast.Del)}
+            if ks - keys and must_pass(g, lstart, n.id, [m.id],
+                                       skip_exc=True):
+                keys |= ks
+        break
+    return keys
+
+
+def _single_defs(f):
+    """{name: value} for locals assigned exactly once, by a plain assignment
+    of a test-like expression (comparison, not / and / or, dict.get, name)"""
+    count, val = {}, {}
+    for n in walk(f.node):
+        if isinstance(n, ast.Name) and isinstance(n.ctx, (ast.Store, ast.Del)):
+            count[n.id] = count.get(n.id, 0) + 1
+        if isinstance(n, ast.Assign) and len(n.targets) == 1 and \
+                isinstance(n.targets[0], ast.Name):
+            val[n.targets[0].id] = n.value
+    for p in f.params:
+        count[p] = count.get(p, 0) + 1
+    ok = (ast.Compare, ast.BoolOp, ast.UnaryOp, ast.Name)
+    return {k: v for k, v in val.items() if count.get(k) == 1 and (
+        isinstance(v, ok) or _is_bool_call(v) or (
+            isinstance(v, ast.Call) and isinstance(v.func, ast.Attribute)
+            and v.func.attr == 'get'))}
+
+
+def _subst(e, defs, depth=4):
+    """`e` with test-like single-definition locals replaced by their value"""
+    if depth <= 0:
+        return e
+    if isinstance(e, ast.Name) and e.id in defs:
+        return _subst(defs[e.id], defs, depth - 1)
+    if isinstance(e, ast.UnaryOp) and isinstance(e.op, ast.Not):
+        return ast.UnaryOp(op=ast.Not(), operand=_subst(e.operand, defs,
+                                                        depth))
+    if isinstance(e, ast.BoolOp):
+        return ast.BoolOp(op=e.op, values=[_subst(v, defs, depth)
+                                           for v in e.values])
+    if _is_bool_call(e):
+        return _subst(e.args[0], defs, depth)
+    if isinstance(e, ast.Compare) and len(e.ops) == 1 and \
+            isinstance(e.ops[0], (ast.Is, ast.IsNot, ast.Eq, ast.NotEq)) and \
+            isinstance(e.comparators[0], ast.Constant) and \
+            isinstance(e.left, ast.Name) and e.left.id in defs:
+        v = _subst(e.left, defs, depth - 1)
+        c = e.comparators[0].value
+        pos = isinstance(e.ops[0], (ast.Is, ast.Eq))
+        if c is None and not _boolean_typed(v):
+            return ast.Compare(left=v, ops=e.ops, comparators=e.comparators)
+        if isinstance(c, bool) and _boolean_typed(v):
+            return v if c == pos else ast.UnaryOp(op=ast.Not(), operand=v)
+    return e
+
+
+def r04_7(prog, rep, rid='R04.7'):
+    rep.rule(rid, 'is_canceled answers true for a task of the scheduler only '
+             'after it has handed that task on as CANCELED, and hands it on '
+             'only when it answers true (the scheduler drops the task from '
+             'the wait pool on a true answer and does nothing else with it)',
+             minimum=2)
+    K = prog.cls(BASE[0], BASE[1])
+    f = prog.find_method(K, 'is_canceled')
+    fa = prog.find_method(K, 'advance')
+    while fa is not None and fa.cls is not None and \
+            prog.find_method(K, 'advance', after=fa.cls) is not None:
+        fa = prog.find_method(K, 'advance', after=fa.cls)
+    if f is None or fa is None:
+        raise AnalysisError('anchor is_canceled / advance of %s not found'
+                            % K.name)
+    rep.saw(f)
+    carried = _carried_keys(prog, fa)
+    if 'uid' not in carried:
+        raise AnalysisError('UNRECOGNISED-IDIOM %s: loop over the things '
+                            'which reads their keys not found' % fa.where)
+    params = [p for p in f.params if p != 'self']
+    if len(params) != 1:
+        raise AnalysisError('UNRECOGNISED-IDIOM %s: parameters' % f.where)
+    param = params[0]
+    g = cfg_of(f)
+    smap = I.stmt_node_map(g)
+    canceled = prog.const('states.py', 'CANCELED')
+    hnodes = {smap[id(c)].id for c in calls_in(f.node)
+              if I.is_handon(c) and id(c) in smap and
+              I.handon_state(prog, f, c) == canceled and
+              isinstance(I.handon_thing(c), ast.Name) and
+              I.handon_thing(c).id == param}
+    defs = _single_defs(f)
+
+    def outs(n, facts):
+        """[(edge, facts)] the ways to leave node n with `facts` known"""
+        es = [e for e in g.succ[n.id] if e.label != 'exc']
+        if n.kind != 'test':
+            return [(e, facts) for e in es]
+        e0 = _subst(n.ast, defs)
+        kt = _key_test(e0, param)
+        if kt is not None and kt[0] in carried:
+            want = 'T' if kt[1] else 'F'
+            return [(e, facts) for e in es if e.label == want]
+        fm = _formula(e0)
+        v = _eval3(fm, dict(facts))
+        if v is not None:
+            return [(e, facts) for e in es if e.label == ('T' if v else 'F')]
+        pos = fm[0] == 'atom'
+        at = fm if pos else (fm[1] if fm[0] == 'not' and
+                             fm[1][0] == 'atom' else None)
+        out = []
+        for e in es:
+            if at is not None and e.label in ('T', 'F'):
+                out.append((e, facts | {(at[1], (e.label == 'T') == pos)}))
+            else:
+                out.append((e, facts))
+        return out
+
+    start = (g.entry.id, frozenset(), False)
+    parent = {start: None}
+    todo = deque([start])
+    answers = []                    # (state, truth of the answer)
+    while todo:
+        key = todo.popleft()
+        nid, facts, handed = key
+        n = g.nodes[nid]
+        if len(parent) > 20000:
+            raise AnalysisError('UNRECOGNISED-IDIOM %s: too many paths'
+                                % f.where)
+        if n.kind == 'stmt' and isinstance(n.ast, ast.Return):
+            v = n.ast.value
+            if v is None:
+                answers.append((key, False))
+                continue
+            if isinstance(v, ast.Constant):
+                answers.append((key, bool(v.value)))
+                continue
+            fm = _formula(_subst(v, defs))
+            t = _eval3(fm, dict(facts))
+            if t is None and not (fm[0] == 'atom' or (
+                    fm[0] == 'not' and fm[1][0] == 'atom')):
+                raise AnalysisError('UNRECOGNISED-IDIOM %s: `%s`'
+                                    % (f.where, short(n.ast, 50)))
+            for val in ((True, False) if t is None else (t,)):
+                answers.append((key, val))
+            continue
+        if nid == g.exit.id:
+            answers.append((key, False))        # falls off the end: None
+            continue
+        h2 = handed or nid in hnodes
+        for e, f2 in outs(n, facts):
+            k2 = (e.dst, f2, h2)
+            if k2 not in parent:
+                parent[k2] = (key, e)
+                todo.append(k2)
+    if not any(t for k, t in answers):
+        raise AnalysisError('UNRECOGNISED-IDIOM %s: no true answer found'
+                            % f.where)
+
+    def path_of(key):
+        out = []
+        while parent.get(key) is not None:
+            key, e = parent[key]
+            out.append((g.nodes[e.src], e))
+        out.reverse()
+        return out
+
+    lost = [k for k, t in answers if t and not k[2]]
+    if lost and hnodes:
+        # which test took the path away from the hand-on?
+        deciding = None
+        for n, e in path_of(lost[0]):
+            if n.kind == 'test' and e.label in ('T', 'F') and \
+                    hnodes & g.reachable(n.id, no_back=True) and \
+                    not hnodes & ({e.dst} | g.reachable(e.dst, no_back=True)):
+                deciding = (n, e)
+        kt = _key_test(_subst(deciding[0].ast, defs), param) \
+            if deciding else None
+        if kt is None:
+            raise AnalysisError(
+                'UNRECOGNISED-IDIOM %s: the CANCELED hand-on is guarded by '
+                '`%s`' % (f.where, short(deciding[0].ast, 40)
+                          if deciding else '?'))
+        why = ('it hands the task on only if the task %s the key %r, and a '
+               'task that waits in the scheduler %s'
+               % ('has' if kt[1] else 'lacks', kt[0],
+                  'carries that key (advance reads it)' if kt[0] in carried
+                  else 'need not carry that key (advance guarantees only %s)'
+                  % sorted(carried)))
+        loc = f.loc(deciding[0].ast)
+    elif lost:
+        why, loc = 'there is no CANCELED hand-on of `%s`' % param, f.loc()
+    rep.check(not lost, rid, f, 'a true answer of is_canceled is preceded by '
+              'the CANCELED hand-on of the task on every path a scheduler '
+              'task can take (keys %s are carried by every task)'
+              % sorted(carried), construct='is_canceled:true=>handed',
+              message='is_canceled(%s) can answer True without having handed '
+              'the task on as CANCELED: %s.  _schedule_incoming deletes a '
+              'task from the wait pool on a true answer and does nothing '
+              'else with it: the task is neither started, waiting, failed '
+              'nor canceled' % (param, why if lost else ''),
+              loc=loc if lost else f.loc(),
+              history='A (4 cores) runs on a 4-core node; B is submitted, and '
+              'the cancel request for B arrives after work() queued B and '
+              'before the scheduling loop picks it up: B has to wait, is '
+              'inserted into the pool, is_canceled(B) answers True, B is '
+              'deleted from the pool - and no CANCELED is ever published',
+              path=[short(n.ast, 50) + ' -> ' + e.label
+                    for n, e in path_of(lost[0]) if n.kind == 'test']
+              if lost else None)
+    dup = [k for k, t in answers if k[2] and not t]
+    rep.check(not dup, rid, f, 'is_canceled answers true on every path on '
+              'which it handed the task on as CANCELED',
+              construct='is_canceled:handed=>true',
+              message='is_canceled(%s) can hand the task on as CANCELED and '
+              'then answer False: the scheduler keeps the task in the wait '
+              'pool and starts it later although it was reported CANCELED'
+              % param, loc=f.loc(),
+              history='cancel request for a waiting task B: B is published '
+              'as CANCELED and started once cores are free',
+              path=[short(n.ast, 50) + ' -> ' + e.label
+                    for n, e in path_of(dup[0]) if n.kind == 'test']
+              if dup else None)
+
+
+# ------------------------------------------------------------------------------
+# R04.8  a request is refused for lack of capacity only when it exceeds it
+#
+# schedule_task refuses a task for good (raise / assert -> the task is FAILED)
+# where it compares an amount the task asks for (a value computed from the
+# task description only) with an amount the pilot offers (a value computed from
+# the resource manager info / the node list, possibly per slot of this task).
+# Such a refusal may be taken only when the request is strictly larger: with
+# `>=` (or `<` in an assert) a task that fits exactly - one rank which needs
+# all cores of a node - is failed although it fits the idle pilot.
+#
+_ORDER = {ast.Gt: ({'>'}, {'<', '='}), ast.GtE: ({'>', '='}, {'<'}),
+          ast.Lt: ({'<'}, {'>', '='}), ast.LtE: ({'<', '='}, {'>'})}
+_MIRROR_REL = {'<': '>', '>': '<', '=': '='}
+
+
+def _refusing_compares(test, label, out):
+    """[(comparison, label)]: the ordering comparisons below and / or / not of
+    `test` with the way each comes out when it contributes to `test` coming
+    out as `label` (a conjunct of a failing assert, a disjunct of a passing
+    `or`: alone sufficient; otherwise necessary - in both cases the refusal
+    hinges on it)"""
+    if isinstance(test, ast.UnaryOp) and isinstance(test.op, ast.Not):
+        _refusing_compares(test.operand, 'F' if label == 'T' else 'T', out)
+    elif isinstance(test, ast.BoolOp):
+        for v in test.values:
+            _refusing_compares(v, label, out)
+    elif isinstance(test, ast.Compare) and len(test.ops) == 1 and \
+            type(test.ops[0]) in _ORDER:
+        out.append((test, label))
+    return out
+
+
+def r04_8(prog, rep, rid='R04.8'):
+    rep.rule(rid, 'schedule_task refuses a task (raise / assert) on the '
+             'comparison of a requested amount with an offered amount only '
+             'when the request is strictly larger - an exact fit is not '
+             'refused', minimum=2)
+    base, classes = sched_classes(prog)
+    seen = set()
+    for K in classes:
+        f = prog.find_method(K, 'schedule_task')
+        if f is None or id(f.node) in seen:
+            continue
+        seen.add(id(f.node))
+        rep.saw(f)
+        g = cfg_of(f)
+        d = Deps(f.node)
+        params = [p for p in f.params if p != 'self']
+        if not params:
+            raise AnalysisError('UNRECOGNISED-IDIOM %s: no task parameter'
+                                % f.where)
+        task = params[0]
+
+        def side(e):
+            """'req' (from the task only), 'cap' (from the pilot's
+            resources), None"""
+            deps = d.expr_depends(e)
+            res = any(x.startswith('self.') and
+                      x.split('[')[0] not in ('self._log', 'self._prof')
+                      for x in deps)
+            if res:
+                return 'cap'
+            if task in deps or any(x.startswith(task + '[') for x in deps):
+                return 'req'
+            return None
+
+        def resolve(a, node):
+            """a test which is a local holding a comparison -> that
+            comparison"""
+            for _ in range(3):
+                if isinstance(a, ast.Name):
+                    ds = reaching_defs(g, a.id, node.id)
+                    if len(ds) == 1 and ds[0][1] is not None:
+                        a = ds[0][1]
+                        continue
+                break
+            return a
+
+        sites = []                       # (ast for loc, [(compare, label)])
+        for n in g.stmt_nodes():
+            if n.kind != 'stmt':
+                continue
+            if isinstance(n.ast, ast.Assert):
+                sites.append((n.ast, _refusing_compares(
+                    resolve(n.ast.test, n), 'F', [])))
+            elif isinstance(n.ast, ast.Raise) and n.ast.exc is not None:
+                cs = []
+                for tid, lab in guards(g, n.id):
+                    # a test decides this refusal only if its other outcome
+                    # can lead to a normal return (an earlier `if x: raise`
+                    # dominates everything behind it, but decides nothing
+                    # there)
+                    other = [e.dst for e in g.succ[tid]
+                             if e.label in ('T', 'F') and e.label != lab]
+                    if not any(o == g.exit.id or g.exit.id in g.reachable(o)
+                               for o in other):
+                        continue
+                    _refusing_compares(resolve(g.nodes[tid].ast,
+                                               g.nodes[tid]), lab, cs)
+                sites.append((n.ast, cs))
+        for stmt, cs in sites:
+            for cmp_, lab in cs:
+                l, r = cmp_.left, cmp_.comparators[0]
+                sl, sr = side(l), side(r)
+                if {sl, sr} != {'req', 'cap'}:
+                    continue
+                rel = set(_ORDER[type(cmp_.ops[0])][0 if lab == 'T' else 1])
+                if sl == 'cap':          # relation of request vs offer
+                    rel = {_MIRROR_REL[x] for x in rel}
+                req, cap = (l, r) if sl == 'req' else (r, l)
+                rep.check(rel == {'>'}, rid, f, '%s: `%s` refuses only when '
+                          'the request `%s` exceeds `%s`'
+                          % (K.name, short(stmt, 40), short(req, 30),
+                             short(cap, 30)), construct=cmp_,
+                          message='%s.schedule_task refuses the task (`%s`) '
+                          'when `%s` comes out %s, i.e. when the requested '
+                          '`%s` is %s the offered `%s`: a task that fits %s is '
+                          'failed for lack of resources although it fits the '
+                          'idle pilot' % (
+                              K.name, short(stmt, 50), short(cmp_, 50),
+                              'true' if lab == 'T' else 'false',
+                              short(req, 30), ' or '.join(
+                                  {'>': 'larger than', '=': 'equal to',
+                                   '<': 'smaller than'}[x]
+                                  for x in sorted(rel, reverse=True)),
+                              short(cap, 30),
+                              'exactly' if '=' in rel else ''),
+                          loc=f.loc(stmt),
+                          history='2 idle nodes with 4 cores each; a task '
+                          'with 1 rank x 4 cores (one slot per node, one slot '
+                          'requested): it is FAILED with "does not fit on a '
+                          'single node" although a whole node is free')
 
 
 # ------------------------------------------------------------------------------
@@ -1203,6 +2514,8 @@ def run(prog, rep, tier):
     rep.attempt(r04_4, prog, rep)
     rep.attempt(r04_6, prog, rep)
     rep.attempt(r04_5, prog, rep)
+    rep.attempt(r04_7, prog, rep)
+    rep.attempt(r04_8, prog, rep)
     # the counter the rule R04.2 rests on
     from .c03 import r03_3
     rep.attempt(r03_3, prog, rep, rid='R03.3')
@@ -1214,6 +2527,20 @@ _B = 'agent/scheduler/base.py'
 _RANOUT = "            if resources and (r_wait is False and r_inc is False):\n                resources = False\n"
 _NEWPOOL = "            self._waitpool[priority] = {task['uid']: task\n                                            for task in (unscheduled + to_wait)}\n"
 _WAKE = "            if not resources and r:\n                resources = True\n"
+
+_U = 'utils/component.py'
+_C = 'agent/scheduler/continuous.py'
+_J = 'agent/scheduler/continuous_jsrun.py'
+_CLOOP = "                    for uid in data:\n                        for priority in self._waitpool:\n                            task = self._waitpool[priority].get(uid)\n                            if task:\n                                to_cancel.append(task)\n                                del self._waitpool[priority][uid]\n                                break\n"
+_CLOOP_POP = "                    for uid in data:\n                        for pool in self._waitpool.values():\n                            if uid in pool:\n                                to_cancel.append(pool.pop(uid))\n                                break\n"
+_FAILDEF = "    def _fail_task(self, task, e, detail):\n"
+_PULL = "    def _pull_waiting(self, uid):\n\n        for pool in self._waitpool.values():\n            if uid in pool:\n                return pool.pop(uid)\n\n        return None\n\n\n"
+_COMPS = "                    waiting   = [self._pull_waiting(uid) for uid in data]\n                    to_cancel = [task for task in waiting if task is not None]\n"
+_TRIAGE = "            to_wait   = list()\n            to_test   = list()\n\n            pool = self._waitpool[priority]\n            if not pool:\n                continue\n\n            self._log.debug_5('schedule waitpool[%d]: %d', priority, len(pool))\n\n            for task in pool.values():\n                named_env = task['description'].get('named_env')\n                if named_env:\n                    if named_env in self._named_envs:\n                        to_test.append(task)\n                    else:\n                        to_wait.append(task)\n                else:\n                    to_test.append(task)\n\n            to_test.sort(key=lambda x:\n                    x['tuple_size'][0] * x['tuple_size'][1] * x['tuple_size'][2],\n                     reverse=True)\n"
+_TRIAGE_HEAD = "            pool = self._waitpool[priority]\n            if not pool:\n                continue\n\n"
+_TRIAGE_COMP = _TRIAGE_HEAD + "            def env_ready(task):\n                named_env = task['description'].get('named_env')\n                return not named_env or named_env in self._named_envs\n\n            ready   = {uid: env_ready(task) for uid, task in pool.items()}\n            to_wait = [task for uid, task in pool.items() if not ready[uid]]\n            to_test = sorted([task for uid, task in pool.items() if ready[uid]],\n                             key=lambda x: x['tuple_size'][0], reverse=True)\n"
+_TRIAGE_2LOOPS = _TRIAGE_HEAD + "            to_wait = list()\n            for task in pool.values():\n                ne = task['description'].get('named_env')\n                if ne and ne not in self._named_envs:\n                    to_wait.append(task)\n\n            to_test = list()\n            for task in pool.values():\n                ne = task['description'].get('named_env')\n                if not ne or ne in self._named_envs:\n                    to_test.append(task)\n            to_test.sort(key=lambda x: x['tuple_size'][0], reverse=True)\n"
+_TRIAGE_INLINE = _TRIAGE_HEAD + "            to_wait = [t for t in pool.values()\n                       if t['description'].get('named_env') and\n                       t['description'].get('named_env') not in self._named_envs]\n            to_test = [t for t in pool.values()\n                       if not t['description'].get('named_env') or\n                       t['description'].get('named_env') in self._named_envs]\n            to_test.sort(key=lambda x: x['tuple_size'][0], reverse=True)\n"
 
 MUTATIONS = [
     dict(name='R04.1 invalid-ranks task failed and scheduled (F10 reverted)', rules=('R04.1',), edits=[
@@ -1293,6 +2620,52 @@ MUTATIONS = [
         (_B, "            r, a = self._unschedule_completed()\n", "            r, a = self._unschedule_completed()\n            active += int(a)\n            r, a = self._schedule_incoming()\n")]),
     dict(name='R04.6 release noted only when an incoming task had to wait', rules=('R04.6',), edits=[
         (_B, _WAKE, "            if not resources and r and r_inc is False:\n                resources = True\n")]),
+    # --- cancel branch in other shapes (R04.5 follows values, not spellings)
+    dict(name='R04.5 pop form: task collected by lookup, not taken out of the pool', rules=('R04.5',), edits=[
+        (_B, _CLOOP, _CLOOP_POP.replace('pool.pop(uid)', 'pool[uid]'))]),
+    dict(name='R04.5 pop form: task popped and not collected', rules=('R04.5',), edits=[
+        (_B, _CLOOP, _CLOOP_POP.replace('to_cancel.append(pool.pop(uid))', 'pool.pop(uid)'))]),
+    dict(name='R04.5 deletes another entry than the one collected', rules=('R04.5',), edits=[
+        (_B, "                                del self._waitpool[priority][uid]\n                                break\n", "                                del self._waitpool[priority][priority]\n                                break\n")]),
+    dict(name='R04.5 pool entry keyed by the priority, not by the requested uid', rules=('R04.5',), edits=[
+        (_B, _CLOOP, _CLOOP.replace('.get(uid)', '.get(priority)').replace('[priority][uid]', '[priority][priority]'))]),
+    dict(name='R04.5 CANCELED hand-on before the collection', rules=('R04.5',), edits=[
+        (_B, "                    to_cancel = list()\n                    for uid in data:\n", "                    to_cancel = list()\n                    self.advance(to_cancel, rps.CANCELED,\n                                                       push=False, publish=True)\n                    for uid in data:\n"),
+        (_B, "                                break\n\n                    self.advance(to_cancel, rps.CANCELED,\n                                                       push=False, publish=True)\n", "                                break\n")]),
+    dict(name='R04.5 helper form (as in C08-r7): result of the pulling helper is not collected', rules=('R04.5',), edits=[
+        (_B, _FAILDEF, _PULL + _FAILDEF),
+        (_B, "                    to_cancel = list()\n" + _CLOOP, "                    to_cancel = list()\n                    for uid in data:\n                        self._pull_waiting(uid)\n")]),
+    dict(name='R04.5 helper form: the helper returns the task without taking it out', rules=('R04.5',), edits=[
+        (_B, _FAILDEF, _PULL.replace('pool.pop(uid)', 'pool[uid]') + _FAILDEF),
+        (_B, "                    to_cancel = list()\n" + _CLOOP, _COMPS)]),
+    # --- wait pool triage in comprehension form (as in C04-r8)
+    dict(name='R04.1 triage by comprehensions: both lists take the ready tasks', rules=('R04.1',), edits=[
+        (_B, _TRIAGE, _TRIAGE_COMP.replace('if not ready[uid]]', 'if ready[uid]]'))]),
+    dict(name='R04.1 triage by comprehensions: kept list is not filtered', rules=('R04.1',), edits=[
+        (_B, _TRIAGE, _TRIAGE_COMP.replace(' if not ready[uid]]', ']'))]),
+    dict(name='R04.1 triage by two loops: tasks with an unknown env are dropped', rules=('R04.1',), edits=[
+        (_B, _TRIAGE, _TRIAGE_2LOOPS.replace("                if ne and ne not in self._named_envs:\n                    to_wait.append(task)\n", "                if ne and ne not in self._named_envs and False:\n                    to_wait.append(task)\n"))],
+         note='`and False` keeps the append so that the list is still recognised; the condition can never hold'),
+    # --- R04.7
+    dict(name='R04.7 is_canceled tests the wrong key before the CANCELED hand-on (seed C04-g5)', rules=('R04.7',), edits=[
+        (_U, "            if 'state' in task:\n", "            if 'target_state' in task:\n")]),
+    dict(name='R04.7 is_canceled hands on only tasks without a state', rules=('R04.7',), edits=[
+        (_U, "            if 'state' in task:\n", "            if 'state' not in task:\n")]),
+    dict(name='R04.7 is_canceled answers True without any hand-on', rules=('R04.7',), edits=[
+        (_U, "            if 'state' in task:\n                self.advance(task, rps.CANCELED, publish=True, push=False)\n", "")]),
+    dict(name='R04.7 is_canceled hands on via task.get of a key advance does not guarantee', rules=('R04.7',), edits=[
+        (_U, "            if 'state' in task:\n", "            if task.get('target_state') is not None:\n")]),
+    dict(name='R04.7 is_canceled hands every task on as CANCELED before it looks at the list', rules=('R04.7',), edits=[
+        (_U, "            if tid not in self._cancel_list:\n                return False\n\n            if 'state' in task:\n                self.advance(task, rps.CANCELED, publish=True, push=False)\n", "            if 'state' in task:\n                self.advance(task, rps.CANCELED, publish=True, push=False)\n\n            if tid not in self._cancel_list:\n                return False\n")]),
+    # --- R04.8
+    dict(name='R04.8 exact single-node fit refused (seed C04-g6)', rules=('R04.8',), edits=[
+        (_C, "        if not mpi and req_slots > slots_per_node:\n", "        if not mpi and req_slots >= slots_per_node:\n")]),
+    dict(name='R04.8 exact single-node fit refused in the jsrun scheduler', rules=('R04.8',), edits=[
+        (_J, "        if not mpi and req_slots > slots_per_node:\n", "        if not mpi and not req_slots < slots_per_node:\n")]),
+    dict(name='R04.8 a rank that needs all cores of a node is refused by the assert', rules=('R04.8',), edits=[
+        (_C, "        assert cores_per_slot <= cores_per_node, \\\n", "        assert cores_per_slot < cores_per_node, \\\n")]),
+    dict(name='R04.8 hoisted fit test with the boundary moved', rules=('R04.8',), edits=[
+        (_C, "        if not mpi and req_slots > slots_per_node:\n", "        too_big = slots_per_node <= req_slots\n        if not mpi and too_big:\n")]),
 ]
 
 SILENT = [
@@ -1347,4 +2720,50 @@ SILENT = [
         (_B, "        while not self._term.is_set():\n\n            self._log.debug_3('schedule tasks 0", "        while True:\n\n            if self._term.is_set():\n                break\n\n            self._log.debug_3('schedule tasks 0")]),
     dict(name='wait pool pass in the else branch of a negated guard', edits=[
         (_B, "            if resources:\n                r_wait, a = self._schedule_waitpool()\n                active += int(a)\n                self._log.debug_3('schedule tasks w: %s %s', r_wait, a)\n", "            if not resources:\n                self._log.debug_3('schedule tasks w: skipped')\n            else:\n                r_wait, a = self._schedule_waitpool()\n                active += int(a)\n                self._log.debug_3('schedule tasks w: %s %s', r_wait, a)\n")]),
+    # --- cancel branch in other shapes
+    dict(name='cancel branch with membership test and pop (as in C04-r7)', edits=[
+        (_B, _CLOOP, _CLOOP_POP)]),
+    dict(name='cancel branch: pop with default into a local, collected if found', edits=[
+        (_B, _CLOOP, "                    for uid in data:\n                        for pool in self._waitpool.values():\n                            found = pool.pop(uid, None)\n                            if found is not None:\n                                to_cancel.append(found)\n                                break\n")]),
+    dict(name='cancel branch as comprehensions over a helper that pops (as in C08-r7)', edits=[
+        (_B, _FAILDEF, _PULL + _FAILDEF),
+        (_B, "                    to_cancel = list()\n" + _CLOOP, _COMPS)]),
+    dict(name='cancel branch: helper looks up, deletes and returns the task (as in C08-r2)', edits=[
+        (_B, _FAILDEF, "    def _pop_waiting_task(self, uid):\n\n        for pool in self._waitpool.values():\n            task = pool.get(uid)\n            if task:\n                del pool[uid]\n                return task\n\n        return None\n\n\n" + _FAILDEF),
+        (_B, _CLOOP, "                    for uid in data:\n                        task = self._pop_waiting_task(uid)\n                        if task:\n                            to_cancel.append(task)\n")]),
+    dict(name='cancel branch extracted into a helper, guard in early-continue form (as in C08-r5)', edits=[
+        (_B, _FAILDEF, "    def _cancel_waiting(self, uids):\n\n        to_cancel = list()\n\n        for uid in uids:\n\n            for pool in self._waitpool.values():\n\n                task = pool.get(uid)\n                if not task:\n                    continue\n\n                to_cancel.append(task)\n                del pool[uid]\n                break\n\n        self.advance(to_cancel, rps.CANCELED, push=False, publish=True)\n\n\n" + _FAILDEF),
+        (_B, "                    to_cancel = list()\n" + _CLOOP + "\n                    self.advance(to_cancel, rps.CANCELED,\n                                                       push=False, publish=True)\n", "                    self._cancel_waiting(data)\n")]),
+    dict(name='cancel branch: pool aliased for the lookup, spelled out for the delete', edits=[
+        (_B, _CLOOP, "                    for uid in data:\n                        for priority in self._waitpool:\n                            pool = self._waitpool[priority]\n                            task = pool.get(uid)\n                            if task:\n                                del self._waitpool[priority][uid]\n                                to_cancel.append(task)\n                                break\n")]),
+    dict(name='CANCELED hand-on only for a non-empty list', edits=[
+        (_B, "                    self.advance(to_cancel, rps.CANCELED,\n                                                       push=False, publish=True)\n", "                    if to_cancel:\n                        self.advance(to_cancel, rps.CANCELED,\n                                                       push=False, publish=True)\n")]),
+    # --- wait pool triage in other shapes
+    dict(name='triage by comprehensions over a precomputed ready map (as in C04-r8)', edits=[
+        (_B, _TRIAGE, _TRIAGE_COMP)]),
+    dict(name='triage by two loops with complementary tests', edits=[
+        (_B, _TRIAGE, _TRIAGE_2LOOPS)]),
+    dict(name='triage by two comprehensions with the test spelled out', edits=[
+        (_B, _TRIAGE, _TRIAGE_INLINE)]),
+    dict(name='wait pool cached in a local, rebuilt through the local', edits=[
+        (_B, "        for priority in sorted(self._waitpool.keys(), reverse=True):\n\n            to_wait   = list()\n            to_test   = list()\n\n            pool = self._waitpool[priority]\n", "        waitpool = self._waitpool\n        for priority in sorted(waitpool, reverse=True):\n\n            to_wait   = list()\n            to_test   = list()\n\n            pool = waitpool[priority]\n"),
+        (_B, "            self._waitpool[priority] = {task['uid']: task\n", "            waitpool[priority] = {task['uid']: task\n")]),
+    # --- is_canceled in other shapes (R04.7)
+    dict(name='is_canceled with a single exit (as in C08-r6)', edits=[
+        (_U, "            tid = task['uid']\n\n            if tid not in self._cancel_list:\n                return False\n\n            if 'state' in task:\n                self.advance(task, rps.CANCELED, publish=True, push=False)\n\n            # remove from cancel list\n            self._cancel_list.remove(tid)\n\n            return True\n", "            tid    = task['uid']\n            listed = tid in self._cancel_list\n\n            if listed:\n\n                if 'state' in task:\n                    self.advance(task, rps.CANCELED, publish=True, push=False)\n\n                self._cancel_list.remove(tid)\n\n            return listed\n")]),
+    dict(name='is_canceled: state test hoisted into a local', edits=[
+        (_U, "            if 'state' in task:\n", "            stateful = 'state' in task\n            if stateful:\n")]),
+    dict(name='is_canceled: state test via task.get', edits=[
+        (_U, "            if 'state' in task:\n", "            if task.get('state') is not None:\n")]),
+    dict(name='is_canceled: stateless things skipped in the if branch', edits=[
+        (_U, "            if 'state' in task:\n                self.advance(task, rps.CANCELED, publish=True, push=False)\n", "            if 'state' not in task:\n                pass\n            else:\n                self.advance(task, rps.CANCELED, publish=True, push=False)\n")]),
+    # --- fit tests in other spellings (R04.8)
+    dict(name='single-node fit test with the operands exchanged', edits=[
+        (_C, "        if not mpi and req_slots > slots_per_node:\n", "        if not mpi and slots_per_node < req_slots:\n")]),
+    dict(name='single-node fit test as negated <=', edits=[
+        (_C, "        if not mpi and req_slots > slots_per_node:\n", "        if not mpi and not req_slots <= slots_per_node:\n")]),
+    dict(name='single-node fit test hoisted into a local', edits=[
+        (_C, "        if not mpi and req_slots > slots_per_node:\n", "        too_big = req_slots > slots_per_node\n        if not mpi and too_big:\n")]),
+    dict(name='per-slot assert as if/raise', edits=[
+        (_C, "        assert cores_per_slot <= cores_per_node, \\\n               'too many threads per proc %s' % cores_per_slot\n", "        if cores_per_slot > cores_per_node:\n            raise AssertionError('too many threads per proc %s' % cores_per_slot)\n")]),
 ]
